@@ -580,6 +580,8 @@ class Evaluator:
                 res = mk_try(args[0])
             elif d == 'core::ops::FromResidual::from_residual':
                 res = ('err_of', args[0][1]) if args[0][0] == 'residual' else ('err_of', args[0])
+                if res[1][0] == 'err_of':
+                    res = res[1]          # an error that is merely passed up through another `?` is the same error
             elif nm in ('is_some', 'is_none', 'is_ok', 'is_err') and d.startswith(('core::option::Option', 'core::result::Result')):
                 v = self.deref_val(st, args[0])
                 which = {'is_some': ('Some', True), 'is_none': ('Some', False), 'is_ok': ('Ok', True), 'is_err': ('Ok', False)}[nm]
@@ -911,6 +913,10 @@ def mk_unwrap(x):
     return ('unwrap', x)
 
 
+def mk_residual(x):
+    return ('residual', x)
+
+
 TWO_VARIANT_CANON = {
     # enum variants -> (canonical predicate name, value of predicate for this variant)
     'None': ('Some', 0), 'Some': ('Some', 1), 'Ok': ('Ok', 1), 'Err': ('Ok', 0),
@@ -935,6 +941,24 @@ def mk_discr(v, variants):
                 return mk_int(dv)
     if v[0] == 'setdiscr':
         return mk_int(v[1])
+    if v[0] == 'try' and variants:
+        # Try::branch of a value whose shape is known: Continue for Ok/Some, Break for Err/None/err_of
+        inner = v[1]
+        which = None
+        if inner[0] == 'err_of':
+            which = 'Break'
+        elif inner[0] == 'agg' and isinstance(inner[1], tuple) and inner[1][0] == 'adt':
+            which = {'Ok': 'Continue', 'Some': 'Continue', 'Err': 'Break', 'None': 'Break'}.get(inner[1][2])
+        if which:
+            for dv, vn in variants:
+                if vn == which:
+                    return mk_int(dv)
+    if v[0] == 'err_of' and variants:
+        # value built by `?` (FromResidual): Err(..) of a Result, None of an Option
+        for want in ('Err', 'None', 'Break'):
+            for dv, vn in variants:
+                if vn == want:
+                    return mk_int(dv)
     return ('discr', v, tuple((dv, vn) for dv, vn in variants) if variants else None)
 
 
